@@ -10,7 +10,7 @@ from ..common import Scratch, Timer, tier, seed, use_repo, vlog
 from ..report import Report
 from .c01 import NONE, _TO, _alarm, judge
 
-FAMILIES = ["bool2", "bool2x2", "bool3", "int1", "int2", "tuple", "list", "oraclize"]
+FAMILIES = ["bool2", "bool2x2", "bool3", "int1", "int2", "tuple", "list", "shadow", "oraclize"]
 
 
 def fingerprint(qf):
